@@ -251,6 +251,27 @@ def check(case, ctx):
             want = (N + 1) if pernode else N
             if distinct != want or (not pernode and sets[N] != sets[N - 1]):
                 fails.append(Fail("raw-structure", dict(feats, kind=d["kind"], vgrid=d.get("grid")), {"name": d["name"], "distinct_columns": distinct, "expected": want}))
+    if m["cls"] == "DC" and sp.get("algebraics"):
+        # algebraic values live at the collocation points; at grid nodes rockit reports the value of the polynomial through them:
+        # at a step's start the first step of the interval evaluated at local time 0, at the final node the last step evaluated at 1
+        from vlib import ref as _ref
+        deg_ = m["degree"]
+        zb_ = _ref.lagrange_basis(_ref.Colloc(deg_, m["scheme"]).tau)
+        for dz in sp["algebraics"]:
+            zs = ca.vec(B.syms[dz["name"]])
+            zp = {"zr": ocp.sample(zs, grid="integrator_roots")[1], "zc": ocp.sample(zs, grid="control")[1], "zi": ocp.sample(zs, grid="integrator")[1]}
+            nz_ = NLP(ocp)
+            nz_.add_all(zp)
+            rz = nz_.eval(X[0][:nz_.nx] if len(X[0]) >= nz_.nx else np.resize(X[0], nz_.nx))
+            zr = rz["zr"]
+            at = lambda step, s_: sum(zr[:, step * deg_ + j] * zb_[j](s_) for j in range(deg_))
+            want_i = np.column_stack([at(st_, 0.0) for st_ in range(N * M)] + [at(N * M - 1, 1.0)])
+            want_c = np.column_stack([at(k * M, 0.0) for k in range(N)] + [at(N * M - 1, 1.0)])
+            if not close(rz["zc"], want_c, 1e-8, 1e-9):
+                fails.append(Fail("algebraic-at-nodes", dict(feats, on="control"), {"sampled": rz["zc"], "polynomial_through_collocation_values": want_c}))
+            elif not close(rz["zi"], want_i, 1e-8, 1e-9):
+                fails.append(Fail("algebraic-at-nodes", dict(feats, on="integrator"), {"sampled": rz["zi"], "polynomial_through_collocation_values": want_i}))
+        ctx.count("algebraic_node_checks")
     if m["cls"] == "DC" and grid == "integrator_roots":
         # every collocation point carries its own state and algebraic value: raw samples there are pairwise different decision variables
         allv = ca.vertcat(nlp.x, nlp.inactive)
